@@ -14,7 +14,7 @@ RULE = ("requirement syntax trees drawn from each ecosystem's range grammar (npm
         ".* forms without epoch/local; Maven: unions of bracketed ranges, hard and soft versions), numbers small so that bounds "
         "collide, printed with random legal spelling/white space; candidates = every bound, its predecessor/successor in each "
         "component, prerelease neighbours (npm, Cargo), and random versions (PyPI: final releases with a non-zero segment; "
-        "Maven: dotted numbers); a quarter of the npm/Cargo candidates is asked again with SemVer build metadata (identifiers with - and .). Go answers MatchVersion, Constraint.Match(version string) and, for npm, resolve.MatchRequirement for every (requirement, candidate), and the three must agree; the extracted reference "
+        "Maven: dotted numbers; a second Maven stream carries qualifiers attached by - on ~30% of the bounds and candidates, judged against MavenSpec's ordering, candidates >= 0); the reference specification's own witness of non-emptiness is added as a candidate; 10% of the npm/Cargo requirements are plain (operators of the theorems on full releases) so that the region of the theorems is populated and counted; a quarter of the npm/Cargo candidates is asked again with SemVer build metadata (identifiers with - and .). Go answers MatchVersion, Constraint.Match(version string) and, for npm, Maven and PyPI, resolve.MatchRequirement for every (requirement, candidate), and the three must agree; the extracted reference "
         "specification (Spec/*.v, validated against the real tool when present) answers on the syntax tree; the extracted "
         "model answers from the same parse tables. A case is non-trivial when the requirement is accepted and at least one "
         "candidate satisfies it and one does not")
@@ -32,13 +32,16 @@ TRUSTED = [
 ASSUMPTIONS = [
     "the composition theorems C03_*_partial hold on the sub-grammar delimited by the boolean side conditions in Properties/C03.v; "
     "outside it the agreement is decided by the oracle (Go against the extracted specification) on generated requirements",
+    "operator theorems exist for npm (>=, >, <, <=, ^ (every major), ~, = on full release versions, release candidates) and for Cargo (the same operators); and-composition (C03_and_partial) and ||-composition (C03_or_partial) for npm only. There are NO "
+    "operator theorems for PyPI and Maven, nor for partial versions and prerelease bounds: there the property rests on the oracle and the correspondence run. "
+    "The share of generated requirements inside the region of the theorems is reported (region:* counters); a hit inside it is reported as a divergence",
     "candidates are limited as the property states: PyPI final releases with a non-zero release segment, Maven versions that are dotted numbers",
 ]
 MANIFEST = dict(
     category="proof",
     text=("Executable model of tokenizer, operator desugaring (opVersionToSpan), span construction, intersection, canonical "
           "union and matching, with reference specifications of node-semver / Cargo / PEP 440 specifiers / Maven ranges in "
-          "Gallina. Theorems: per-operator soundness of the produced span against the reference's comparator semantics, the "
+          "Gallina. Theorems (npm and Cargo only; none for PyPI and Maven): per-operator soundness of the produced span against the reference's comparator semantics, the "
           "prerelease admission rule compared with node's, refuted witnesses for the recorded defects, partial composition on "
           "the stated sub-grammar. Model tied to the code by differential execution; Go's MatchVersion is compared with the "
           "extracted specification on every generated (requirement, candidate) pair, and hits are confirmed against the real tool."),
@@ -49,12 +52,66 @@ MANIFEST = dict(
     technique="Rocq proof over an executable model + reference specs in Gallina + differential correspondence + spec oracle on Go outputs",
     design="8 C03")
 
-ECO_SYS = {"npm": 4, "cargo": 1, "pypi": 6, "maven": 3}
+ECO_SYS = {"npm": 4, "cargo": 1, "pypi": 6, "maven": 3, "mavenq": 3}
+ECOS = ("npm", "cargo", "pypi", "maven", "mavenq")
+TOOL_ECO = {"mavenq": "maven"}
+
+# Maven versions with a qualifier, attached by '-' (the domain on which deps.dev and Maven's
+# ComparableVersion agree, DESIGN 6.4), a few with the '.Final' spelling
+MVN_SUFFIX = [b"-SNAPSHOT", b"-alpha", b"-alpha-1", b"-beta-2", b"-rc1", b"-RC2", b"-milestone-1", b"-sp", b"-sp-1", b"-foo", b"-final", b".Final"]
+
+
+def mvn_text(rng, ints, allow_below=True):
+    s = b".".join(b"%d" % n for n in ints)
+    if rng.random() < 0.3:
+        suf = rng.choice(MVN_SUFFIX)
+        if not allow_below and not any(ints) and suf not in (b"-sp", b"-sp-1", b"-final", b".Final", b"-foo"):
+            return s                      # candidates are versions >= 0
+        s += suf
+    return s
+
+
+def gen_mavenq(rng):
+    """a Maven requirement and candidates whose versions may carry qualifiers; the syntax tree
+    holds the version TEXTS (kind spec_mavenq)"""
+    ast = ranges.gen_ast(rng, "maven")
+    pv = ranges.probes(rng, "maven", ast, 4)
+    if ast[0] == 0:
+        q = [0, mvn_text(rng, ast[1])]
+        text = q[1]
+    else:
+        rs, parts = [], []
+        for li, lo, hi_i, hi in ast[1]:
+            lo_t = [mvn_text(rng, lo[0])] if lo else []
+            hi_t = [mvn_text(rng, hi[0])] if hi else []
+            if lo and hi and lo[0] == hi[0] and li and hi_i:
+                hi_t = list(lo_t)
+                parts.append(b"[" + lo_t[0] + b"]")
+            else:
+                parts.append((b"[" if li else b"(") + (lo_t[0] if lo_t else b"") + b"," + (hi_t[0] if hi_t else b"") + (b"]" if hi_i else b")"))
+            rs.append([li, lo_t, hi_i, hi_t])
+        q = [1, rs]
+        text = b",".join(parts)
+    cands = []
+    for v in pv:
+        t = mvn_text(rng, v, allow_below=False)
+        if t not in cands:
+            cands.append(t)
+    for r in (q[1] if q[0] == 1 else []):        # the bounds themselves, as written
+        for b in (r[1] + r[3]):
+            if b not in cands and not (b.split(b"-")[0].strip(b"0.") == b"" and b"-" in b):
+                cands.append(b)
+    return q, text, cands
+
+
+
 NAMES = ["Default", "Cargo", "Go", "Maven", "NPM", "NuGet", "PyPI", "RubyGems", "Composer"]
 
 sys.path.insert(0, os.path.join(lib.VERIF, "harness", "ref"))
 
 
+MVN_BELOW0 = re.compile(rb"^0(\.0)*-(alpha|beta|milestone|rc|cr|snapshot|[abm]\d)", re.I)
+DOT_QUAL = re.compile(rb"\.[A-Za-z]|[A-Za-z]\.\d")
 NPM_CMP = re.compile(rb"(?:[<>=~^]+\s*)?[0-9A-Za-z.*+-]+")
 MVN_GROUP = re.compile(rb"[\[(][^\])]*[\])]")
 
@@ -74,7 +131,7 @@ def alternatives(eco, text):
         return alts
     if eco in ("cargo", "pypi"):
         return [[t.strip() for t in text.split(b",") if t.strip()] or [b"*"]]
-    if eco == "maven":
+    if eco in ("maven", "mavenq"):
         groups = MVN_GROUP.findall(text)
         return [[g] for g in groups] if groups else [[text]]
     raise ValueError(eco)
@@ -85,7 +142,7 @@ BUILDS = [b"+build-5", b"+b.1", b"+21AF26D3----117B344092BD", b"+001", b"+exp.sh
 
 def mk(eco, ast, text, pv, rng=None):
     sysi = ECO_SYS[eco]
-    ptexts = [ranges.print_version(eco, v) for v in pv]
+    ptexts = list(pv) if eco == "mavenq" else [ranges.print_version(eco, v) for v in pv]
     if rng is not None and eco in ("npm", "cargo"):
         # SemVer build metadata ([0-9A-Za-z-] identifiers separated by dots) never changes the
         # answer: the same candidate is asked again with a build tag
@@ -156,14 +213,28 @@ def collapsing_ast(rng, eco):
     return [[op, v[0], v[1], v[2], []] for op, v in cmps]
 
 
+def plain_ast(rng, eco):
+    """requirements in the region of the operator theorems: >=, >, <, <=, ^, ~, = (npm: also no operator)
+    on full release versions with small numbers; npm: 1-3 comparators per and-list, 1-3
+    alternatives; Cargo: one comparator.  They are printed without textual variation."""
+    def triple():
+        return [rng.choice([0, 1, 1, 2, 3]), rng.choice([0, 0, 1, 2, 9]), rng.choice([0, 0, 1, 3])]
+    ops = [1, 2, 3, 3, 4, 4, 5, 6, 7] + ([0] if eco == "npm" else [])
+    if eco == "npm":
+        return [[1, [[rng.choice(ops), triple() + [[]]] for _ in range(rng.choice([1, 2, 2, 3]))]] for _ in range(rng.choice([1, 1, 2, 3]))]
+    return [[rng.choice(ops)] + triple() + [[]]]
+
+
 def gen_cases(ctx):
     rng = ctx.rng
     per = ctx.scale(1100, 55000)
     cases = []
     for eco in ranges.ECOS:
         for _ in range(per):
-            ast = collapsing_ast(rng, eco) if (eco in ("npm", "cargo") and rng.random() < 0.06) else ranges.gen_ast(rng, eco)
-            text = ranges.print_ast(rng, eco, ast)
+            plain = eco in ("npm", "cargo") and rng.random() < 0.1
+            ast = plain_ast(rng, eco) if plain else \
+                collapsing_ast(rng, eco) if (eco in ("npm", "cargo") and rng.random() < 0.06) else ranges.gen_ast(rng, eco)
+            text = ranges.print_ast(rng, eco, ast, plain=plain)
             pv = ranges.probes(rng, eco, ast, 4)
             if eco in ("npm", "cargo"):
                 ast = canon_idents(ast)
@@ -171,14 +242,45 @@ def gen_cases(ctx):
                     continue
                 pv = [q for q in (canon_idents(v) for v in pv) if q is not None]
             cases.append(mk(eco, ast, text, pv, rng))
+    for _ in range(per // 2):
+        q, text, cands = gen_mavenq(rng)
+        cases.append(mk("mavenq", q, text, cands))
     for eco, ast, text, pv in CORPUS:
         cases.append(mk(eco, ast, text, pv))
+    add_witnesses(ctx, cases)
     return cases
+
+
+def add_witnesses(ctx, cases):
+    """the reference specification is asked for a version that satisfies the requirement (a
+    witness of non-emptiness, Spec/*.v); it becomes one more candidate, so that the clause about
+    requirements the reference accepts as non-empty does not depend on the probes"""
+    for eco in ECOS:
+        idx = [i for i, c in enumerate(cases) if c["eco"] == eco]
+        if not idx:
+            continue
+        lines = ctx.model("wit_" + eco, [sx(cases[i]["ast"]) for i in idx])
+        for i, line in zip(idx, lines):
+            w = parse_sx(line)
+            if not isinstance(w, list) or w[0] not in (0, 1):
+                raise lib.BuildError("witness function rejected a generated syntax tree", sx(cases[i]["ast"]) + " -> " + line)
+            c = cases[i]
+            if w[0] == 1:
+                ctx.count("witness:%s:found" % eco)
+                v = w[1]
+                t = bytes(v) if eco == "mavenq" else ranges.print_version(TOOL_ECO.get(eco, eco), v)
+                if t not in c["ptexts"]:
+                    c["pv"] = c["pv"] + [v]
+                    c["ptexts"] = c["ptexts"] + [t]
+                    c["head"][2] = sx(c["ptexts"])
+                    c["keys"].add((0, t))
+            else:
+                ctx.count("witness:%s:none" % eco)
 
 
 def spec_answers(ctx, cases):
     out = [None] * len(cases)
-    for eco in ranges.ECOS:
+    for eco in ECOS:
         idx = [i for i, c in enumerate(cases) if c["eco"] == eco]
         lines = ctx.model("spec_" + eco, [sx([cases[i]["ast"], cases[i]["pv"]]) for i in idx])
         for i, line in zip(idx, lines):
@@ -248,7 +350,7 @@ def confirm_with_tools(ctx, cases, hits, spec):
     verdict = {}
     status = {}
     examples = []
-    for eco in ranges.ECOS:
+    for eco in ECOS:
         idxs = sorted(set(h.idx for h in hits if cases[h.idx]["eco"] == eco))
         allidx = [i for i, c in enumerate(cases) if c["eco"] == eco]
         sample = rng.sample(allidx, min(len(allidx), ctx.scale(150, 3000)))
@@ -256,7 +358,7 @@ def confirm_with_tools(ctx, cases, hits, spec):
         if not want:
             continue
         try:
-            res = validate_specs.check(eco, [(cases[i]["text"], cases[i]["ptexts"]) for i in want])
+            res = validate_specs.check(TOOL_ECO.get(eco, eco), [(cases[i]["text"], cases[i]["ptexts"]) for i in want])
         except Exception as e:
             res = None
             ctx.notes.append("reference tool for %s failed: %s" % (eco, str(e)[:200]))
@@ -268,6 +370,9 @@ def confirm_with_tools(ctx, cases, hits, spec):
         for i, r in zip(want, res):
             if r is None:
                 verdict[i] = None                       # the tool rejects the text
+                if eco == "mavenq":
+                    ctx.count("mavenq:text-outside-the-tool's-grammar")     # a qualifier made a range invalid
+                    continue
                 mism += 1
                 if len(examples) < 6:
                     examples.append("%s: the tool rejects %r" % (eco, cases[i]["text"]))
@@ -286,6 +391,72 @@ def confirm_with_tools(ctx, cases, hits, spec):
     if examples:
         ctx.extra["spec_validation_disagreements"] = examples
     return verdict
+
+
+# ----------------------------------------------------------------------------- the region of the theorems
+
+THM_CMP = re.compile(rb"^(>=|<=|>|<|\^|~|=)?(0|[1-9]\d*)\.(0|[1-9]\d*)\.(0|[1-9]\d*)$")
+THM_CAND = re.compile(rb"^(0|[1-9]\d*)\.(0|[1-9]\d*)\.(0|[1-9]\d*)$")
+FIN = (1 << 63) - 1
+
+
+def thm_comparator(eco, t):
+    """operator + full release version as in C03_op_*_sound / C03_cargo_*_sound, side conditions included"""
+    m = THM_CMP.match(t)
+    if not m:
+        return False
+    op = m.group(1) or b""
+    nums = [int(x) for x in m.groups()[1:]]
+    if any(n >= FIN for n in nums):
+        return False
+    if op == b"<" and nums == [0, 0, 0]:
+        return False
+    if op in (b">", b"<="):
+        # C03_op_gt_sound / C03_op_le_sound and their Cargo forms: > needs patch + 1 below the value for infinity
+        return not (op == b">" and nums[2] >= FIN - 1)
+    return True
+
+
+def thm_shape(eco, text):
+    """the requirement is spelled with the comparators of the operator theorems only, single
+    spaces / || between them (npm), one comparator (Cargo: no and-theorem for Cargo)"""
+    if eco == "npm":
+        alts = [a.split(b" ") for a in text.split(b"||")]
+        return alts if all(a and all(thm_comparator(eco, t) for t in a) for a in alts) else None
+    if eco == "cargo":
+        return [[text]] if thm_comparator(eco, text) else None
+    return None
+
+
+def theorem_domain(ctx, tables, cases, impl_lines, model_lines):
+    """which cases lie inside the region of the C03 theorems (operators on full release versions,
+    and-lists under the side conditions of C03_and_partial, || under C03_or_partial); counted per
+    ecosystem.  Returns the set of case indices inside."""
+    idx, dcases = [], []
+    for i, c in enumerate(cases):
+        if c["eco"] not in ("npm", "cargo"):
+            continue
+        ctx.count("region:%s:requirements" % c["eco"])
+        alts = thm_shape(c["eco"], c["text"])
+        if alts is None or not impl_lines[i].startswith('("ok"'):
+            continue
+        keys = set(c["keys"])
+        for a in alts:
+            for t in a:
+                keys |= set((0, x) for x in ctable.candidates(t))
+        idx.append(i)
+        dcases.append({"sys": c["sys"], "head": [str(c["sys"]), sx(alts)], "keys": keys})
+    inside = set()
+    if dcases:
+        for i, line in zip(idx, ctable.run_model(ctx, tables, "cdiag", dcases)):
+            eco = cases[i]["eco"]
+            ctx.count("region:%s:comparators of the operator theorems" % eco)
+            if line.startswith('("ok"') and parse_sx(line)[2] == 1:
+                inside.add(i)
+                ctx.count("region:%s:inside the C03 theorems" % eco)
+                ctx.count("region:%s:release candidates judged inside" % eco,
+                          sum(1 for p in cases[i]["ptexts"] if THM_CAND.match(p) and all(int(x) < FIN for x in p.split(b"."))))
+    return inside
 
 
 # ----------------------------------------------------------------------------- classification
@@ -320,6 +491,7 @@ def classify(ctx, tables, cases, impl_lines, model_lines, hits, spec):
     if npm_same:
         for i, line in zip(npm_same, ctx.model("spec_npm_desugar", [sx(cases[i]["ast"]) for i in npm_same])):
             cases[i]["desugar"] = parse_sx(line)
+    cargo_detail(ctx, cases, [h for h in hits if cases[h.idx]["eco"] == "cargo" and impl_lines[h.idx] == model_lines[h.idx]])
     out = []
     for h in hits:
         c = cases[h.idx]
@@ -369,6 +541,39 @@ def inc_bound(pa):
     if m != -1:
         return [M, m + 1, 0]
     return [M + 1, 0, 0]
+
+
+def cargo_detail(ctx, cases, hits):
+    """For Cargo hits on a candidate with a prerelease tag: the crate's own per-comparator verdicts
+    (matches_impl, pre_is_compatible, from the extracted specification) and, from Go, whether the
+    candidate lies in the interval of each comparator taken alone (MatchVersionPrerelease).
+    Stored on the hit as h.detail = [(impl, compat, interval)...]."""
+    todo = [h for h in hits if cases[h.idx]["pv"][h.probe_i][3] and len(cases[h.idx]["ast"]) > 0
+            and impl_ok(cases[h.idx])]
+    if not todo:
+        return
+    det = ctx.model("cargo_detail", [sx([cases[h.idx]["ast"], [cases[h.idx]["pv"][h.probe_i]]]) for h in todo])
+    args, owners = [], []
+    for h in todo:
+        c = cases[h.idx]
+        for t in alternatives("cargo", c["text"])[0]:
+            args.append(sx([1, t, [c["ptexts"][h.probe_i]], []]))
+            owners.append(h)
+    outs = ctx.impl("cmatch", args)
+    ctx.evaluations -= len(args)
+    interval = {}
+    for h, line in zip(owners, outs):
+        r = parse_sx(line)
+        interval.setdefault(id(h), []).append(r[1][0][1] if r[0] == b"ok" and r[1][0][0] != b"verr" else None)
+    for h, line in zip(todo, det):
+        d = parse_sx(line)[0]
+        iv = interval.get(id(h), [])
+        if len(iv) == len(d):
+            h.detail = [(x[0], x[1], i) for x, i in zip(d, iv)]
+
+
+def impl_ok(c):
+    return len(alternatives("cargo", c["text"])[0]) == len(c["ast"])
 
 
 def npm_partials(ast):
@@ -436,6 +641,12 @@ def class_of(c, h, ev, impl_line):
             if op == 8 and not prefix and not any(v[0]) and (v[1] or v[3] != -1):
                 return "F-C03-11"
         return None
+    if eco == "mavenq" and rejected:
+        # F-C03-16: no lower bound is the version 0 for deps.dev; an upper bound below 0 (a
+        # qualifier that sorts before the release on all-zero numbers) then fails newSpan
+        if c["ast"][0] == 1 and any(not lo and hi and MVN_BELOW0.match(hi[0]) for _, lo, _, hi in c["ast"][1]):
+            return "F-C03-16"
+        return None
     if rejected:
         return None
     if eco == "npm":
@@ -462,7 +673,18 @@ def class_of(c, h, ev, impl_line):
     if "openunit" in ev:
         return "F-C03-1a"
     if eco == "cargo" and cand_pre:
-        return "F-C03-8"
+        det = getattr(h, "detail", None)
+        if det is None:
+            return None
+        # F-C03-8: for some comparator the crate's tag-aware verdict differs from plain interval
+        # membership (a partial or untagged comparator never matches a prerelease of its own
+        # major[.minor[.patch]], = and * need identical tags)
+        if any(i is not None and impl != i for impl, compat, i in det):
+            return "F-C03-8"
+        # F-C03-15: every comparator agrees with its interval; the crate then admits the candidate
+        # iff SOME comparator has its major.minor.patch and a tag (pre_is_compatible), deps.dev
+        # iff a BOUND OF THE RESULTING SPAN has
+        return "F-C03-15"
     return None
 
 
@@ -568,6 +790,7 @@ def run(ctx):
     spec = spec_answers(ctx, cases)
     hits = oracle(ctx, cases, impl_lines, spec)
     verdict = confirm_with_tools(ctx, cases, hits, spec)
+    inside = theorem_domain(ctx, tables, cases, impl_lines, model_lines)
     for h, known, cls in classify(ctx, tables, cases, impl_lines, model_lines, hits, spec):
         c = cases[h.idx]
         if h.idx in verdict and not h.entry:
@@ -576,6 +799,16 @@ def run(ctx):
                 ctx.count("hit-not-confirmed-by-the-tool")
                 continue
         inp = {"ecosystem": c["eco"], "requirement": c["text"], "version": c["ptexts"][h.probe_i]}
+        if h.idx in inside and not h.entry and THM_CAND.match(c["ptexts"][h.probe_i]) and impl_lines[h.idx] == model_lines[h.idx]:
+            # operators, and-lists and || of this requirement are covered by the theorems for this
+            # release candidate: model and proof (or the unproved step from text to spans) disagree
+            ctx.divergence("theorem-region", inp, "oracle hit inside the region of the C03 theorems: " + h.what, "no hit")
+            continue
+        if c["eco"] == "mavenq" and not h.entry and (DOT_QUAL.search(c["text"]) or DOT_QUAL.search(c["ptexts"][h.probe_i])):
+            # a qualifier introduced by '.' (1.0.0.Final): outside D_mvn, where deps.dev follows the
+            # Maven 3.6 ordering and the installed tool the 3.8 one (DESIGN 6.4, property C02)
+            ctx.count("mavenq:ordering-outside-D_mvn")
+            continue
         if known:
             ctx.known_hits[known] = ctx.known_hits.get(known, 0) + 1
         else:
